@@ -1,11 +1,30 @@
 package stats
 
+import (
+	"reflect"
+	"unsafe"
+
+	"github.com/prometheus/client_golang/prometheus"
+)
+
 // Accessors for the C17 harness (added by overlay, never part of the repository).
 
 var verifZeroOnceC17 = doOnce
 
 // VerifResetC17 forgets the singleton so that Init can be called again.
 func VerifResetC17() {
+	if globalPromStats != nil {
+		// the exporter registers its series with the process-wide registry: take them out again
+		v := reflect.ValueOf(globalPromStats).Elem()
+		for i := 0; i < v.NumField(); i++ {
+			f := v.Field(i)
+			if f.Kind() == reflect.Ptr && !f.IsNil() {
+				if c, ok := reflect.NewAt(f.Type(), unsafe.Pointer(f.UnsafeAddr())).Elem().Interface().(prometheus.Collector); ok {
+					prometheus.Unregister(c)
+				}
+			}
+		}
+	}
 	globalStats = nil
 	globalPromStats = nil
 	doOnce = verifZeroOnceC17
